@@ -29,16 +29,22 @@ import (
 )
 
 var (
-	atOnce            sync.Once
-	tableMetaCacheMap = map[types.DBType]TableMetaCache{}
+	atOnce                sync.Once
+	tableMetaCacheMapLock sync.RWMutex
+	tableMetaCacheMap     = map[types.DBType]TableMetaCache{}
 )
 
-// RegisterTableCache register the table meta cache for at and xa
+// RegisterTableCache register the table meta cache for at and xa (every sql.Open of a proxy driver
+// calls it, possibly while statements of other handles look the cache up)
 func RegisterTableCache(dbType types.DBType, tableMetaCache TableMetaCache) {
+	tableMetaCacheMapLock.Lock()
+	defer tableMetaCacheMapLock.Unlock()
 	tableMetaCacheMap[dbType] = tableMetaCache
 }
 
 func GetTableCache(dbType types.DBType) TableMetaCache {
+	tableMetaCacheMapLock.RLock()
+	defer tableMetaCacheMapLock.RUnlock()
 	return tableMetaCacheMap[dbType]
 }
 
@@ -113,7 +119,7 @@ type TableMetaCache interface {
 
 // buildResource
 func buildResource(ctx context.Context, dbType types.DBType, db *sql.DB) (*entry, error) {
-	cache := tableMetaCacheMap[dbType]
+	cache := GetTableCache(dbType)
 	if err := cache.Init(ctx, db); err != nil {
 		return nil, err
 	}
